@@ -153,6 +153,8 @@ struct SimEngineInner {
     bad_store_request: Mutex<Option<String>>,
     /// while true, block writes do not complete (storage lags behind consensus)
     stall: sync::watch::Sender<bool>,
+    /// time the execution layer needs to verify a payload (honours cancellation of the context)
+    verify_delay: Mutex<Option<time::Duration>>,
 }
 
 #[derive(Clone)]
@@ -181,7 +183,12 @@ impl SimEngine {
             crashed: AtomicBool::new(false),
             bad_store_request: Mutex::new(None),
             stall: sync::watch::channel(false).0,
+            verify_delay: Mutex::new(None),
         }))
+    }
+    /// Payload verification takes this long from now on.
+    pub fn set_verify_delay(&self, d: Option<time::Duration>) {
+        *self.0.verify_delay.lock().unwrap() = d;
     }
     /// Block writes stop / resume completing.
     pub fn set_stalled(&self, on: bool) {
@@ -217,6 +224,7 @@ impl SimEngine {
             crashed: AtomicBool::new(false),
             bad_store_request: Mutex::new(None),
             stall: sync::watch::channel(false).0,
+            verify_delay: Mutex::new(None),
         }))
     }
 }
@@ -259,7 +267,11 @@ impl EngineInterface for SimEngine {
     async fn verify_pregenesis_block(&self, _ctx: &ctx::Ctx, _b: &validator::PreGenesisBlock) -> ctx::Result<()> {
         Ok(())
     }
-    async fn verify_payload(&self, _ctx: &ctx::Ctx, _n: validator::BlockNumber, payload: &validator::Payload) -> ctx::Result<()> {
+    async fn verify_payload(&self, ctx: &ctx::Ctx, _n: validator::BlockNumber, payload: &validator::Payload) -> ctx::Result<()> {
+        let delay = *self.0.verify_delay.lock().unwrap();
+        if let Some(d) = delay {
+            ctx.sleep(d).await?;
+        }
         if *payload == self.0.invalid {
             return Err(anyhow::format_err!("invalid payload").into());
         }
@@ -317,6 +329,7 @@ pub fn step(w: &World, idx: usize, local: &Local, input: &Input, policy: &Policy
         crashed: AtomicBool::new(false),
         bad_store_request: Mutex::new(None),
             stall: sync::watch::channel(false).0,
+            verify_delay: Mutex::new(None),
     }));
     let eng2 = eng.clone();
     let key = w.c.keys[idx].clone();
@@ -524,22 +537,31 @@ pub struct RunLoopsOut {
 /// nothing else can happen. Progress = every node stores a block it did not have at the start.
 /// Runs under the controlled scheduler with the choice sequence of `ch`.
 pub fn run_loops(ch: &core::Ch, w: &World, nodes: &[(usize, Local)], max_rounds: u32) -> RunLoopsOut {
-    run_loops_with(ch, w, nodes, max_rounds, false).0
+    run_loops_with(ch, w, nodes, max_rounds, false, false).0
+}
+
+/// Good period in which the execution layer needs one and a half view timeouts to verify a payload
+/// (and gives up when its context is cancelled, as the EngineInterface contract demands).
+pub fn run_loops_slow_verification(ch: &core::Ch, w: &World, nodes: &[(usize, Local)], max_rounds: u32) -> RunLoopsOut {
+    run_loops_with(ch, w, nodes, max_rounds, false, true).0
 }
 
 /// The adversarial prefix "storage lags, then every node crashes": the real loops run with block
 /// writes stalled until nothing can happen any more, then all processes die. Returns the durable
 /// images the restarted nodes will find.
 pub fn stalled_storage_then_crash(ch: &core::Ch, w: &World, nodes: &[(usize, Local)]) -> Vec<(usize, Local)> {
-    let (_, locals) = run_loops_with(ch, w, nodes, 0, true);
+    let (_, locals) = run_loops_with(ch, w, nodes, 0, true, false);
     nodes.iter().map(|(i, _)| *i).zip(locals).collect()
 }
 
-fn run_loops_with(ch: &core::Ch, w: &World, nodes: &[(usize, Local)], max_rounds: u32, stalled: bool) -> (RunLoopsOut, Vec<Local>) {
+fn run_loops_with(ch: &core::Ch, w: &World, nodes: &[(usize, Local)], max_rounds: u32, stalled: bool, slow_verify: bool) -> (RunLoopsOut, Vec<Local>) {
     use zksync_consensus_network::io::{ConsensusInputMessage, ConsensusReq};
     let engines: Vec<SimEngine> = nodes.iter().map(|(_, l)| SimEngine::from_local(w, l)).collect();
     for e in &engines {
         e.set_stalled(stalled);
+        if slow_verify {
+            e.set_verify_delay(Some(time::Duration::milliseconds(VIEW_TIMEOUT_S * 1500)));
+        }
     }
     let stored_at_start: Vec<usize> = engines.iter().map(|e| e.stored_blocks()).collect();
     let engines2 = engines.clone();
